@@ -1798,8 +1798,8 @@ mod pattern_parser {
     if let Token(_, TokenContent::Operator(TokenOp::Bar)) = parser.peek() {
       let mut patterns = vec![first_pattern];
       while let Token(_, TokenContent::Operator(TokenOp::Bar)) = parser.peek() {
-        drop(parser.consume());
-        let next_pattern = parse_single_matching_pattern(parser, Vec::new());
+        let comments_before_bar = parser.consume();
+        let next_pattern = parse_single_matching_pattern(parser, comments_before_bar);
         patterns.push(next_pattern);
       }
       let location = patterns.first().unwrap().loc().union(patterns.last().unwrap().loc());
@@ -1889,7 +1889,7 @@ mod pattern_parser {
         associated_comments: parser.comments_store.create_comment_reference(starting_comments),
       };
     };
-    pattern::MatchingPattern::Id(parser.parse_lower_id(), ())
+    pattern::MatchingPattern::Id(parser.parse_lower_id_with_comments(starting_comments), ())
   }
 
   fn parse_tuple_pattern(parser: &mut super::SourceParser) -> pattern::TuplePattern<()> {
